@@ -174,6 +174,67 @@ func ruleNatsRemoveBeforeInvoke(c *Ctx) {
 // C18.2/.3/.4: control-line guards, single listener, closed handler
 func ruleNatsPlumbing(c *Ctx) {
 	p := c.P
+	// a pre-response replaces the running timeout: once the old one has been taken out (Remove / Stop
+	// returned true) a new one is armed on every path — a request left without any timeout completes
+	// zero times when the service never replies
+	if fn := p.Fn("(*nats.Client).parseMeta"); fn != nil {
+		c.inst(1)
+		sp := &Spec{}
+		isStopCall := func(v ssa.Value) bool {
+			call, ok := v.(*ssa.Call)
+			if !ok {
+				return false
+			}
+			cf := calleeFunc(&call.Call)
+			if cf == nil || cf.Pkg() == nil {
+				return false
+			}
+			return (cf.Name() == "Stop" && cf.Pkg().Path() == "time") || (cf.Name() == "Remove" && strings.HasSuffix(cf.Pkg().Path(), "timerqueue"))
+		}
+		sp.Classify = func(t *Tracer, fr *Frame, in ssa.Instruction) []Ev {
+			if call, ok := in.(*ssa.Call); ok {
+				if cf := calleeFunc(&call.Call); cf != nil && cf.Pkg() != nil && cf.Pkg().Path() == "time" && cf.Name() == "AfterFunc" {
+					return []Ev{{Kind: "arm"}}
+				}
+			}
+			return nil
+		}
+		sp.Branch = func(t *Tracer, fr *Frame, i *ssa.If, dir bool) []Ev {
+			v := i.Cond
+			neg := false
+			if u, ok := v.(*ssa.UnOp); ok && u.Op == token.NOT {
+				v, neg = u.X, true
+			}
+			r := t.Resolve(fr, v).V
+			if isStopCall(r) && dir != neg {
+				return []Ev{{Kind: "removed"}}
+			}
+			return nil
+		}
+		tr := runTrace(p, fn, sp)
+		bad := ""
+		n := 0
+		for _, path := range tr.Paths {
+			ri := indexKind(path, "removed")
+			if ri < 0 {
+				continue
+			}
+			n++
+			armed := false
+			for _, e := range path[ri:] {
+				if e.Kind == "arm" {
+					armed = true
+				}
+			}
+			if !armed {
+				bad = "the running timeout is taken out but no new one is armed on this path: if the service never replies the request completes zero times and stays registered: " + tr.FmtPath(path)
+			}
+		}
+		if tr.Trunc {
+			bad = "path budget exhausted"
+		}
+		c.check(bad == "" && n > 0, fnName(fn), "a pre-response that removes the running timeout arms a new one", p.Pos(fn.Pos()), fmt.Sprintf("%d paths remove the timeout; each arms a new one", n), bad)
+	}
 	// once Unsubscribe returns, the handler is called no more — whatever the library answers (after a
 	// disconnect it answers with an error): the entry leaves the pending map on every returning path
 	if fn := p.Fn("(*nats.Subscription).Unsubscribe"); fn != nil {
@@ -563,6 +624,40 @@ func ruleStop(c *Ctx) {
 		}
 		c.check(bad == "", fnName(fn), "workers stopped, pending evictions cleared, restartable", p.Pos(fn.Pos()), fmt.Sprintf("%d paths", len(tr.Paths)), bad)
 	}
+	// Stop and connection loss close every client socket themselves: Disconnect closes the socket on every
+	// path on which there is one (it does not wait for the client to finish a closing handshake)
+	if fn := p.Fn("(*server.wsConn).Disconnect"); fn != nil {
+		c.inst(1)
+		fWS := p.Field("server.wsConn.ws")
+		sp := &Spec{}
+		sp.Classify = func(t *Tracer, fr *Frame, in ssa.Instruction) []Ev {
+			if call, ok := in.(ssa.CallInstruction); ok {
+				if cf := calleeFunc(call.Common()); cf != nil && cf.Name() == "Close" && cf.Pkg() != nil && strings.Contains(cf.Pkg().Path(), "websocket") {
+					return []Ev{{Kind: "close"}}
+				}
+			}
+			if _, ok := in.(*ssa.Return); ok && fr == t.RootFr {
+				return []Ev{{Kind: "return"}}
+			}
+			return nil
+		}
+		sp.Branch = func(t *Tracer, fr *Frame, i *ssa.If, dir bool) []Ev {
+			if x, nn, ok := nilTest(i, dir); ok && !nn {
+				if f, _ := fieldLoad(x); f != nil && f == fWS {
+					return []Ev{{Kind: "no-socket"}}
+				}
+			}
+			return nil
+		}
+		tr := runTrace(p, fn, sp)
+		bad := ""
+		for _, path := range tr.Paths {
+			if hasKind(path, "return") && !hasKind(path, "close") && !hasKind(path, "no-socket") {
+				bad = "a path of Disconnect leaves the socket open (it relies on the client to end the connection): a client that does not answer keeps its socket, Stop runs into its timeout and the gateway keeps reading that client's requests after it stopped: " + tr.FmtPath(path)
+			}
+		}
+		c.check(bad == "", fnName(fn), "Disconnect closes the socket on every path", p.Pos(fn.Pos()), fmt.Sprintf("%d paths", len(tr.Paths)), bad)
+	}
 	// new connections refused while stopped/stopping
 	if fn := p.Fn("(*server.Service).newWSConn"); fn != nil {
 		fConns := p.Field("server.Service.conns")
@@ -744,6 +839,54 @@ func ruleDispose(c *Ctx) {
 			}
 		}
 		c.check(bad == "", fnName(fn), "dispose releases everything: flag+close under the mutex, cache conn, conn events, every subscription, wait group, registry", p.Pos(fn.Pos()), fmt.Sprintf("%d paths", len(tr.Paths)), bad)
+	}
+	// Enqueue refuses a task for one reason only: the connection is disposing. (The clean-up of a closed
+	// connection is itself a task handed to Enqueue: any other refusal can refuse the clean-up.)
+	if f := p.Fn("(*server.wsConn).Enqueue"); f != nil {
+		c.inst(1)
+		sp := &Spec{}
+		sp.Classify = func(t *Tracer, fr *Frame, in ssa.Instruction) []Ev {
+			if r, ok := in.(*ssa.Return); ok && fr == t.RootFr && len(r.Results) == 1 {
+				if b, isC := constBool(t.Resolve(fr, r.Results[0]).V); isC && !b {
+					return []Ev{{Kind: "refuse"}}
+				}
+				return []Ev{{Kind: "accept"}}
+			}
+			return nil
+		}
+		sp.Branch = func(t *Tracer, fr *Frame, i *ssa.If, dir bool) []Ev {
+			if fr != t.RootFr {
+				return nil
+			}
+			v := i.Cond
+			if u, ok := v.(*ssa.UnOp); ok && u.Op == token.NOT {
+				v = u.X
+			}
+			if fl, _ := fieldLoad(v); fl != nil && fl == fDisp {
+				return []Ev{{Kind: "disposing?"}}
+			}
+			if t.DecidedInHelper(i) {
+				return nil
+			}
+			return []Ev{{Kind: "other", Note: p.InstrPos(i)}}
+		}
+		tr := runTrace(p, f, sp)
+		bad := ""
+		for _, path := range tr.Paths {
+			if !hasKind(path, "refuse") {
+				continue
+			}
+			last := ""
+			for _, e := range path {
+				if e.Kind == "disposing?" || e.Kind == "other" {
+					last = e.Kind
+				}
+			}
+			if last != "disposing?" {
+				bad = "a task is refused although the connection is not disposing: the task may be the connection's own clean-up (Dispose hands dispose() to Enqueue), which then never runs — its subscriptions, its conn-event subscription and its place in the token-reset fan-out stay: " + tr.FmtPath(path)
+			}
+		}
+		c.check(bad == "", fnName(f), "a task is refused only when the connection is disposing", p.Pos(f.Pos()), fmt.Sprintf("%d paths", len(tr.Paths)), bad)
 	}
 	// Enqueue refuses after dispose; Subscribe/Unsubscribe/UnsubscribeByRID are no-ops
 	enq := p.Method("server.wsConn.enqueue")
